@@ -4,3 +4,4 @@ import YV.Model.XLex
 import YV.Model.XParse
 import YV.Spec.XSem
 import YV.Model.XPathM
+import YV.Model.YParse
